@@ -254,6 +254,24 @@ def run_family(prop, tier):
         kinds[g['kind']] = kinds.get(g['kind'], 0) + 1
     gen_wall = time.time() - t_gen
     rejects, stats = validate('traces/ParserTrace.tla', events, prop.lower(), per_shard=max(40, n_total // (NCPU * 3)), timeout=3000)
+    from .trace import binding_demo
+
+    def score_off(e):
+        if e['trees']:
+            e['trees'][0]['score'] += 8
+            return e
+
+    def prio_up(e):
+        if len(e['prios']) > 2:
+            e['prios'][-1] = e['prios'][0] + 8
+            return e
+
+    def relabel(e):
+        for t in e['trees']:
+            if t['tree']['k'] != 'L':
+                t['tree']['lab'] = 'NOT-A-LABEL'
+                return e
+    demo = binding_demo('traces/ParserTrace.tla', events, [('reported_score_changed', score_off), ('last_pop_priority_raised', prio_up), ('root_label_replaced', relabel)], prop.lower())
     viols = []
     other = {}
     for (i, clause) in rejects:
@@ -270,6 +288,7 @@ def run_family(prop, tier):
                    'nbest_searches': sum(1 for e in events if e['k'] > 1), 'agenda_pops_observed': sum(e['npops'] for e in events),
                    'returned_trees': sum(len(e['trees']) for e in events), 'budget_limited': sum(1 for e in events if e['maxstep'] < 10 ** 6)},
         'clauses_of_other_properties_rejected_in_this_run': other,
+        'binding_demonstration': demo,
         'driver_wall_s': round(gen_wall, 1),
         'samples': [metas[i] for i in (1, len(events) // 2, len(events))],
         'checker_cmd': stats.cmds[0] if stats.cmds else '',
